@@ -1,1 +1,3 @@
 import FlodymGen.Subscripts
+import FlodymGen.GaussLobatto
+import FlodymGen.Constants
